@@ -14,15 +14,15 @@ CHECKS = {
    "Trusted: the harness's block driver reproduces CometBFT's ABCI call discipline (one serialised ABCI connection, free-running queries/simulation/pruner); divergence needing another binary/OS/architecture is out of reach.",
    "DESIGN.md 4/C01"),
  "C02": ("exploration", "multi-route differential + independent reference hasher",
-   "For every generated content set the MKVS root is computed along many independent routes (insertion orders, histories with overwrites/removals/re-inserts, commit batching, cache capacities, backends, reopen, write-log replay) and must equal an independent reference hasher's canonical-trie root; neighbouring content sets must give different roots.",
+   "For every generated content set the MKVS root is computed along many independent routes (insertion orders, histories with overwrites/removals/re-inserts, commit batching, cache capacities, backends, reopen, write-log replay) and must equal an independent reference hasher's canonical-trie root; neighbouring content sets must give different roots. A fault-retry route makes operations fail once (GetNode failing once, contexts cancelled after i checks): a failed operation must leave the contents unchanged and the retried history must still reach the reference root.",
    "Trusted: the reference hasher is written from the hash definitions in node.go only; SHA-512/256 collision resistance.",
    "DESIGN.md 4/C02"),
  "C03": ("exploration", "online reference-model monitor (ordered map)",
-   "Random operation histories (insert, remove, get, iterate/seek, nested overlays with commit/discard/copy, tree commit, close/reopen) are executed against the real tree under several cache capacities, backends and write-log settings; every returned value and every iteration is compared with a reference ordered map.",
+   "Random operation histories (insert, remove, get, iterate/seek, nested overlays with commit/discard/copy, tree commit, close/reopen) are executed against the real tree under several cache capacities, backends and write-log settings; every returned value and every iteration is compared with a reference ordered map. About a quarter of the operations are first attempted under an injected fault (failing GetNode, cancelled context) and must then leave the map unchanged.",
    "Trusted: the reference map (Go map + sort).",
    "DESIGN.md 4/C03"),
  "C04": ("exploration", "evil-peer fault injection + model oracle over answers",
-   "Completeness: proofs of random trees for present/absent/prefix/extension keys verify and determine the true answers (both proof versions). Soundness: a client holding only the trusted root reads through a peer that serves honest, mutated (38 mutation kinds), spliced and stale proofs; every non-error answer must equal the model; every mutant accepted by VerifyProof is re-interrogated.",
+   "Completeness: proofs of random trees for present/absent/prefix/extension keys verify and determine the true answers (both proof versions). Soundness: a client holding only the trusted root reads through a peer that serves honest, mutated (38 mutation kinds), spliced and stale proofs; every non-error answer must equal the model; every mutant accepted by VerifyProof is re-interrogated. Fabricated minimal proofs and re-encodings of honest entries (database serialization with forged or spliced children) are served as well, and the subtree returned for every accepted corrupted proof must be part of the trusted tree. Fixed deep prefix chains probe the proof depth bound.",
    "Trusted: the monitor's own partial-tree interpreter and the reference map; hash collision resistance.",
    "DESIGN.md 4/C04"),
  "C05": ("exploration", "conservation monitor over committed state and H1 taps",
@@ -30,7 +30,7 @@ CHECKS = {
    "Trusted: typed state readers of the staking state package; the in-tree supplementary sanity checker is not used.",
    "DESIGN.md 4/C05"),
  "C06": ("exploration", "history monitor with full read-back, cross-backend differential, porcupine, race detector",
-   "Generated NodeDB version histories (competing candidate roots sharing and re-creating nodes, IO and state roots, arbitrary finalisation, lagging pruning) on both backends; after every operation every retained finalized root is fully read back against a model, discarded roots must be absent or intact, both backends must answer identically; concurrent readers run against a committer/finalizer/pruner under the race detector and metadata operations are checked for linearizability.",
+   "Generated NodeDB version histories (competing candidate roots sharing and re-creating nodes, IO and state roots, arbitrary finalisation, lagging pruning) on both backends; after every operation every retained finalized root is fully read back against a model, discarded roots must be absent or intact, both backends must answer identically; concurrent readers run against a committer/finalizer/pruner under the race detector and metadata operations are checked for linearizability. Long-lived trees kept across versions (same root committed twice, prefix keys embedded and un-embedded, leaves becoming and ceasing to be the root), on-disk histories with reopen and compaction, and a commit-versus-finalize family whose interleavings are chosen by parking goroutines at the hook points are part of every run.",
    "Trusted: the per-root model; porcupine's checker. Known open findings on the hashed badger backend are listed in KNOWN_FINDINGS.jsonl.",
    "DESIGN.md 4/C06"),
  "C07": ("fault_enumeration", "SIGKILL at every crash point x hit index (H3) + reopen/retry oracle",
@@ -42,11 +42,11 @@ CHECKS = {
    "Trusted: the authentication model (signature, nonce, balance, reserved address); key-manager methods only to validation depth.",
    "DESIGN.md 4/C08"),
  "C09": ("exploration", "history monitor with independent signature verifier and forger",
-   "Fresh, replayed, reordered, bit-flipped and cross-context transactions are delivered; a transaction that takes effect (non-empty state diff or code OK) must verify under an independent ed25519 check of this chain's transaction context, carry the signer's current nonce, advance exactly that nonce by one, and its bytes never take effect twice.",
+   "Fresh, replayed, reordered, bit-flipped and cross-context transactions are delivered; a transaction that takes effect (non-empty state diff or code OK) must verify under an independent ed25519 check of this chain's transaction context, carry the signer's current nonce, advance exactly that nonce by one, and its bytes never take effect twice. Copies of the proposer's own proposal with one signature bit flipped are offered to ProcessProposal, and signatures made for another domain are first shown to that domain's handler inside a carrier transaction.",
    "Trusted: independent sha512/256 + ed25519 verification in the harness.",
    "DESIGN.md 4/C09"),
  "C10": ("exploration", "panic/reject monitor over hostile block histories",
-   "Every generated history (including a hostile profile: extreme amounts, all validators absent, evidence against unknown/frozen validators, slashing to zero, proposals closing with debonding and rewards on one epoch boundary) must complete BeginBlock/DeliverTx/EndBlock/Commit without panic, empty proposal or rejected honest proposal; the documented stake precondition (no stake-eligible validators / zero total voting stake) ends a history without verdict.",
+   "Every generated history (including a hostile profile: extreme amounts, all validators absent, evidence against unknown/frozen validators, slashing to zero, proposals closing with debonding and rewards on one epoch boundary) must complete BeginBlock/DeliverTx/EndBlock/Commit without panic, empty proposal or rejected honest proposal; the documented stake precondition (no stake-eligible validators / zero total voting stake) ends a history without verdict. Histories include runtime scenarios (round timers, suspensions, liveness evaluation), vault traffic and node role / entity changes.",
    "Trusted: LastCommitInfo always lists exactly the current validator set as CometBFT guarantees.",
    "DESIGN.md 4/C10"),
  "C11": ("exploration", "exhaustive small-scope enumeration against an event-log checker and a reference decision function",
@@ -54,27 +54,27 @@ CHECKS = {
    "Exhaustive only inside the stated scope; the app level is sampled.",
    "DESIGN.md 4/C11"),
  "C12": ("exploration", "round-trip differential + chunk fault enumeration + race detector",
-   "Checkpoints of generated trees are created twice (metadata must be identical) and restored into empty databases of both backends in PRNG orders with duplicates, concurrent callers and abort/restart; the restored root and contents must equal the source; every corrupted chunk must be rejected with nothing of it visible.",
+   "Checkpoints of generated trees are created twice (metadata must be identical) and restored into empty databases of both backends in PRNG orders with duplicates, concurrent callers and abort/restart; the restored root and contents must equal the source; every corrupted chunk must be rejected with nothing of it visible. Gated readers keep chunks in flight while others complete and the harness finalizes on the first done=true; checkpoints are re-created over the leftovers of interrupted creations; a stalled concurrent restore is decided from goroutine dumps (deadlock) instead of a timeout.",
    "Trusted: the reference map.",
    "DESIGN.md 4/C12"),
  "C13": ("exploration", "write-log round trip + corruption enumeration",
-   "For consecutive finalized roots the write log served by the database, applied at the first root, must produce the second; LocalBackend.Apply must persist only logs that hash to the expected root (corrupted logs fail unless semantically neutral per the model) and must not leave the root visible after a failure.",
+   "For consecutive finalized roots the write log served by the database, applied at the first root, must produce the second; LocalBackend.Apply must persist only logs that hash to the expected root (corrupted logs fail unless semantically neutral per the model) and must not leave the root visible after a failure. Commits refused by the node database (six reasons) followed by further updates and a successful commit of the same tree are part of a third of the batches; the log returned by Commit is judged like the served one.",
    "Trusted: the reference map deciding semantic neutrality.",
    "DESIGN.md 4/C13"),
  "C14": ("exploration", "recomputed-eligibility monitor at election taps (H2)",
-   "At every election of generated histories the oracle recomputes eligibility from registry/staking/scheduler state at the elect.pre tap and checks the elected validator set and the executor committees of the generated runtime (only eligible nodes, limits, per-entity caps, minimum pool size, exact sizes or no committee, stake order, power monotone), and that the validator updates turn the simulated CometBFT validator set into exactly the elected set; results are compared across replicas.",
+   "At every election of generated histories the oracle recomputes eligibility from registry/staking/scheduler state at the elect.pre tap and checks the elected validator set and the executor committees of the generated runtime (only eligible nodes, limits, per-entity caps, minimum pool size, exact sizes or no committee, stake order, power monotone), and that the validator updates turn the simulated CometBFT validator set into exactly the elected set; results are compared across replicas. A block in which the reference ran an election and rejects the proposing replica's state root is reported as replicas disagreeing on an election.",
    "Trusted: the harness's re-implementation of the eligibility predicate from the property statement.",
    "DESIGN.md 4/C14"),
  "C15": ("exploration", "exact integer inequalities over API sequences + chain taps",
-   "Level 1: random/boundary Deposit/Withdraw/reward/slash sequences on SharePool checked with exact big-integer cross-multiplication (mint/redeem at most pro rata, nobody else's redeemable value falls, no money pump). Level 2: around every escrow operation in generated chain histories other delegators' redeemable value does not fall, share price falls only with TakeEscrow events, reclaimed delegations are paid exactly once at the right epoch and price.",
+   "Level 1: random/boundary Deposit/Withdraw/reward/slash sequences on SharePool checked with exact big-integer cross-multiplication (mint/redeem at most pro rata, nobody else's redeemable value falls, no money pump). Level 2: around every escrow operation in generated chain histories other delegators' redeemable value does not fall, share price falls only with TakeEscrow events, reclaimed delegations are paid exactly once at the right epoch and price. Level 2 also checks the recorded debonding end epoch against the executing block's epoch plus the interval in force, and that pool share totals equal the shares of their owners at every block.",
    "Trusted: math/big.",
    "DESIGN.md 4/C15"),
  "C16": ("exploration", "structure-aware mutational fuzzing in child processes (race/checkptr build)",
-   "Valid encodings produced by the harness are mutated (bit/byte/length/nesting/duplication/truncation) and fed to every untrusted decode/verify boundary and to CheckTx/DeliverTx of a live multiplexer; no panic, hang or allocation blow-up, and a following valid block must still execute.",
+   "Valid encodings produced by the harness are mutated (bit/byte/length/nesting/duplication/truncation) and fed to every untrusted decode/verify boundary and to CheckTx/DeliverTx of a live multiplexer; no panic, hang or allocation blow-up, and a following valid block must still execute. Besides random mutants every valid seed goes through deterministic series: every truncation length, every single byte deleted, every length field moved by +-1..4, every optional field absent / null (all combinations for paired structures); proofs nested through every child slot are bounded by counting verifier invocations and by a stack limit; the host protocol is driven by adversarial peer scripts whose outcome is decided from goroutine dumps.",
    "Absence of findings over the sampled inputs only.",
    "DESIGN.md 4/C16"),
  "C17": ("exploration", "index/claims recomputation + authority monitor over state diffs",
-   "After every block of registry-heavy histories (registrations, key rotation/swap, expiry, deregistration) every node must resolve under each current key, keys are unique, indexes equal what primary records imply, stake claims equal the registered objects, and records change only in transactions signed with the right authority.",
+   "After every block of registry-heavy histories (registrations, key rotation/swap, expiry, deregistration) every node must resolve under each current key, keys are unique, indexes equal what primary records imply, stake claims equal the registered objects, and records change only in transactions signed with the right authority. The descriptor of an entity-governed runtime may only change in a transaction of that entity (also while suspended).",
    "Trusted: typed registry/staking state readers.",
    "DESIGN.md 4/C17"),
  "C18": ("fault_enumeration", "mutation enumeration of attestation vectors with acceptance oracle",
@@ -82,7 +82,7 @@ CHECKS = {
    "Only the vectors in the repository; crypto of the Go standard library trusted.",
    "DESIGN.md 4/C18"),
  "C19": ("fault_enumeration", "field/byte-level alteration of provider responses with normal-form oracle",
-   "Every field and byte of recorded provider responses (block, results, validators, parameters, transactions, proofs) is altered; an accepted response must have the same header-bound normal form as the original; inclusion proofs verify only for their own transaction and block.",
+   "Every field and byte of recorded provider responses (block, results, validators, parameters, transactions, proofs) is altered; an accepted response must have the same header-bound normal form as the original; inclusion proofs verify only for their own transaction and block. Multi-height histories run against one long-lived Core with responses of other heights relabelled, so stale caches show; times are compared exactly (sub-second alterations).",
    "Events in block results are excluded (code TODO #6210).",
    "DESIGN.md 4/C19"),
  "C20": ("exploration", "online reference-model monitor of the scheduler (H4 export)",
